@@ -181,8 +181,6 @@ def judge(ctx, pid, tpls, recs, summ, scenario_fn, ref_fn, disagree_fn, extra_ou
         if r['status'] in ('unsupported', 'inconclusive'):
             inconclusive.append('%s: %s %s %s' % (r['status'], r.get('detail'), r.get('where', ''), r.get('notes')))
     inconclusive = sorted(set(inconclusive))
-    if summ.get('truncated'):
-        inconclusive.append('exploration truncated')
     covers = set()
     for r in recs:
         covers.update(r.get('covers', []))
